@@ -137,7 +137,7 @@ def _units_axis_amount(prog, res, fn, key):
   an amount of 0.0 for l1 and l2"""
   ok = False
   for st in ast.walk(fn.node):
-    if isinstance(st, ast.If) and 'weights' in names_read(st.test):
+    if isinstance(st, ast.If):
       adds = {}
       for a in ast.walk(st):
         if isinstance(a, ast.Assign) and isinstance(a.value, ast.BinOp) and \
@@ -167,16 +167,24 @@ def _lattice_laplacian(prog, res):
             'diff = (S - 1) slices: adjacent-vertex differences',
             'diff is the operator %s, expected the first difference S - 1' % p)
   # axis agreement: permut swaps 0 and dim; reshape [lattice_sizes[dim], -1]
+  # (the local that holds the permutation may have any name: it is the one
+  # handed to tf.transpose(weights, perm=...))
+  pname = None
+  for c in ast.walk(fn.node):
+    if isinstance(c, ast.Call) and prog.ext_name(
+        fn.module, c.func) == 'tf.transpose' and dotted(c.args[0]) == 'weights':
+      pname = dotted({k.arg: k.value for k in c.keywords}.get(
+          'perm', c.args[1] if len(c.args) > 1 else None))
+  if pname is None:
+    raise AnalysisError('laplacian_regularizer: tf.transpose(weights, perm) '
+                        'not found')
+  tr = True
   swap = any(isinstance(st, ast.Assign) and isinstance(st.targets[0], ast.Tuple)
+             and isinstance(st.value, ast.Tuple)
              and [norm_text(t) for t in st.targets[0].elts] ==
-             ['permut[0]', 'permut[dim]'] and
+             ['%s[0]' % pname, '%s[dim]' % pname] and
              [norm_text(t) for t in st.value.elts] ==
-             ['permut[dim]', 'permut[0]'] for st in ast.walk(fn.node))
-  tr = any(isinstance(c, ast.Call) and prog.ext_name(
-      fn.module, c.func) == 'tf.transpose' and dotted(c.args[0]) == 'weights'
-           and dotted({k.arg: k.value for k in c.keywords}.get(
-               'perm', c.args[1] if len(c.args) > 1 else None)) == 'permut'
-           for c in ast.walk(fn.node))
+             ['%s[dim]' % pname, '%s[0]' % pname] for st in ast.walk(fn.node))
   rs = [st for st in d.get('slices', []) if isinstance(st.value, ast.Call)
         and prog.ext_name(fn.module, st.value.func) == 'tf.reshape']
   shp = None
@@ -234,8 +242,19 @@ def _lattice_torsion(prog, res):
            for st in ast.walk(fn.node)
            if isinstance(st, ast.Assign) and isinstance(st.targets[0],
                                                         ast.Tuple)]
-  sw = (('(permut[0], permut[i])', '(permut[i], permut[0])') in swaps and
-        ('(permut[1], permut[j])', '(permut[j], permut[1])') in swaps)
+  pname = None
+  for c in ast.walk(fn.node):
+    if isinstance(c, ast.Call) and prog.ext_name(
+        fn.module, c.func) == 'tf.transpose' and dotted(c.args[0]) == 'weights':
+      pname = dotted({k.arg: k.value for k in c.keywords}.get(
+          'perm', c.args[1] if len(c.args) > 1 else None))
+  if pname is None:
+    raise AnalysisError('torsion_regularizer: tf.transpose(weights, perm) '
+                        'not found')
+  sw = (('({0}[0], {0}[i])'.format(pname),
+         '({0}[i], {0}[0])'.format(pname)) in swaps and
+        ('({0}[1], {0}[j])'.format(pname),
+         '({0}[j], {0}[1])'.format(pname)) in swaps)
   rs = [st for st in d.get('planes', []) if isinstance(st.value, ast.Call)
         and prog.ext_name(fn.module, st.value.func) == 'tf.reshape']
   shp_ok = False
